@@ -1,6 +1,6 @@
 (* Proofs for C16: invariants of the datagram-server LTS over all label sequences. *)
 From Coq Require Import List Arith Bool Lia.
-From EN Require Import Lib.Bytes Conc.DgramServer.
+From EN Require Import Lib.Bytes Conc.DgramServer Conc.DgramListener.
 Import ListNotations.
 
 (* ---------------------------------------------------------------- per-client invariant *)
@@ -950,4 +950,39 @@ Proof.
   intros ls s o a Hok H. destruct (fifo_exactly_once_pf ls s o a Hok H) as [Hr Hf].
   rewrite <- Hf, Hr. unfold discarded. rewrite !app_length, !map_length.
   rewrite (filter_partition_length snd (hist (cl s a))). lia.
+Qed.
+
+
+(* ---------------------------------------------------------------- the listener across serve() restarts *)
+Definition linv (s : lstate) : Prop := serving s = true -> backlog s = [].
+
+Lemma lstep_inv s l s' : linv s -> lstep s l = Some s' ->
+  linv s' /\ dispatched s' ++ backlog s' = (dispatched s ++ backlog s) ++ larrivals [l].
+Proof.
+  intros Hi H. destruct l as [a d| |]; simpl in H; destruct (serving s) eqn:E; inversion H; subst; unfold linv; simpl.
+  - rewrite (Hi E). rewrite !app_nil_r. auto.
+  - split; [discriminate|]. rewrite <- app_assoc. reflexivity.
+  - split; [reflexivity|]. rewrite !app_nil_r. reflexivity.
+  - split; [discriminate|]. rewrite app_nil_r. reflexivity.
+Qed.
+
+Lemma larrivals_app x y : larrivals (x ++ y) = larrivals x ++ larrivals y.
+Proof. induction x as [|l x IH]; simpl; [reflexivity|]. destruct l; simpl; rewrite IH; reflexivity. Qed.
+
+Lemma lsteps_conservation ls : forall s s', linv s -> lsteps s ls = Some s' ->
+  linv s' /\ dispatched s' ++ backlog s' = (dispatched s ++ backlog s) ++ larrivals ls.
+Proof.
+  induction ls as [|l ls IH]; intros s s' Hi H; simpl in H.
+  - inversion H; subst. simpl. rewrite app_nil_r. auto.
+  - destruct (lstep s l) as [s1|] eqn:E; [|discriminate].
+    destruct (lstep_inv _ _ _ Hi E) as [Hi1 Hc1]. destruct (IH _ _ Hi1 H) as [Hi' Hc'].
+    split; [exact Hi'|]. rewrite Hc', Hc1, <- app_assoc. change (l :: ls) with ([l] ++ ls). rewrite larrivals_app. reflexivity.
+Qed.
+
+Lemma listener_conservation_pf :
+  forall ls s, lsteps lstate0 ls = Some s ->
+    dispatched s ++ backlog s = larrivals ls /\ (serving s = true -> backlog s = []).
+Proof.
+  intros ls s H. assert (Hi0 : linv lstate0) by (intros E; discriminate).
+  destruct (lsteps_conservation ls _ _ Hi0 H) as [Hi Hc]. split; [exact Hc|exact Hi].
 Qed.
